@@ -229,6 +229,7 @@ HeadTexts == {<<T("alpha")>>, <<T("alpha"), T("beta")>>, <<T("x1")>>, <<T("alpha
 ParaLines == {<<i>> : i \in Inlines \cup MmdInlines \cup NestInl} \cup {<<T("alpha"), i, T("x1")>> : i \in (Inlines \cup MmdInlines \cup NestInl) \ {Inl("br", "x1", "beta", "")}}
              \cup {<<FnB, T("beta"), FnA>>, <<RefB, RefA, RefB>>, <<FnA, RefA>>}
 Leaf == {Para(<<T("alpha")>>), Para(<<Inl("em", "beta", "", ""), T("x1")>>)}
+WrapLeaf == Para(<<Inl("br", "x1", "beta", "")>>)
 NestLeaf == {Para(<<Inl("lst", "x1", "http://u.rl/p", "alpha")>>), Para(<<T("beta"), Inl("emc", "alpha", "co de", "x1")>>)}
 MmdLeaf == {Para(<<FnA>>), Para(<<RefB, T("x1")>>)}
 Cells == {<<Inl("lem", "beta", "http://u.rl/p", "")>>, <<Inl("code", "a & b", "", "")>>, <<T("alpha")>>, <<Inl("em", "beta", "", "")>>, <<Inl("code", "co de", "", "")>>, <<Inl("ent", "&", "&amp;", ""), T("x1")>>, <<Inl("link", "alpha", "http://u.rl/p", "")>>, <<RefB>>, <<Inl("st", "x1", "", ""), T("beta")>>}
@@ -265,6 +266,8 @@ SomeDl == DefList(<<Grp(<<T1("alpha")>>, << <<T("x1"), T("beta")>> >>)>>)
 Containers == {Quote(<<c>>) : c \in Simple \cup MmdLeaf \cup {SomeDl}} \cup {Quote(<<c1, c2>>) : c1 \in Leaf, c2 \in Simple}
               \cup {List(o, z, <<a, b>>) : o \in BOOLEAN, z \in BOOLEAN, a \in Leaf \cup MmdLeaf \cup NestLeaf, b \in Leaf} \cup {List(o, FALSE, <<a>>) : o \in BOOLEAN, a \in Leaf}
               \cup {Quote(<<List(FALSE, FALSE, <<a, b>>)>>) : a \in Leaf, b \in Leaf \cup MmdLeaf}
+              \* items whose first paragraph runs over two source lines (the second one indented under the first): tight and loose, bulleted and numbered
+              \cup {List(o, z, <<WrapLeaf, b>>) : o \in BOOLEAN, z \in BOOLEAN, b \in Leaf} \cup {List(o, TRUE, <<WrapLeaf, WrapLeaf, a>>) : o \in BOOLEAN, a \in Leaf \cup {WrapLeaf}}
               \cup {NList(o, z, io, <<a, b, Para(<<T("x1")>>), Para(<<T("beta")>>)>>) : o \in BOOLEAN, z \in BOOLEAN, io \in BOOLEAN, a \in Leaf, b \in Leaf \cup NestLeaf}
               \cup {PItem(o, <<a, b, Para(<<T("x1")>>)>>) : o \in BOOLEAN, a \in Leaf, b \in Leaf \cup MmdLeaf}
 Independent == Simple \cup {Quote(<<c>>) : c \in Leaf} \cup {SomeTable, SomeDl}        \* blocks that do not refer to one another: the compositionality family
